@@ -53,11 +53,13 @@ class _ContextLifter(DefaultTransformVisitor):
     func: FuncDef
     expr_to_name: dict[Expr, NamedId]
     name_to_expr: dict[NamedId, Expr]
+    name_to_val: dict[NamedId, Context]
 
     def __init__(self, func: FuncDef, eval_info: PartialEvalInfo, ctx_exprs: list[Expr]):
         self.func = func
         self.expr_to_name = {}
         self.name_to_expr = {}
+        self.name_to_val = {}
 
         # bind expressions to fresh variable names
         gensym = Gensym(eval_info.def_use.names())
@@ -65,6 +67,7 @@ class _ContextLifter(DefaultTransformVisitor):
             name = gensym.fresh('ctx')
             self.expr_to_name[e] = name
             self.name_to_expr[name] = e
+            self.name_to_val[name] = eval_info.by_expr[e]
 
     def apply(self) -> FuncDef:
         return self._visit_function(self.func, None)
@@ -72,10 +75,15 @@ class _ContextLifter(DefaultTransformVisitor):
     def _visit_function(self, func: FuncDef, ctx: None):
         # visit the function body to eliminate context expressions
         func = super()._visit_function(func, ctx)
-        # prepend variable bindings for lifted context expressions
+        # prepend variable bindings for lifted context expressions; bind the
+        # context the expression was proven to evaluate to, not the expression:
+        # re-evaluated at the top of the function it would read locals that are
+        # not bound yet and compute its arguments under the function's context
+        # rather than exactly, as a `with` header does
         stmts: list[Stmt] = []
         for name, expr in self.name_to_expr.items():
-            stmts.append(Assign(name, None, expr, expr.loc))
+            val = ForeignVal(self.name_to_val[name], expr.loc)
+            stmts.append(Assign(name, None, val, expr.loc))
         stmts.extend(func.body.stmts)
 
         # replace the function body with the new statements
